@@ -189,6 +189,70 @@ def run_trace(ck, rng, quick):
     ck.count("trace_scripts", len(scripts))
 
 
+def run_resume(ck, rng, quick):
+    """after a reconnection transmission resumes with the oldest unacknowledged event -- whatever way the previous connection
+    ended (peer close, STOPDT act first, application close, write failure)"""
+    h = c07.harness()
+    scripts, meta = [], {}
+    for i in range(40 if quick else 600):
+        k = rng.choice([1, 2, 3, 12])
+        a = rng.range(0, 4)
+        b = a + rng.range(1, 6)
+        how = rng.choice(["peerclose", "stopdt+peerclose", "appclose", "stopdt+appclose", "writefail"])
+        lines = ["cfg k=%d w=8 handlers=64 lowq=100 highq=10" % k, "start", "connect c0 10.0.0.1:1000", "tick", "rx c0 " + apci.STARTDT_ACT.hex(), "tick"]
+        for e in range(1, a + 1):
+            lines.append("enq " + c07.ev_asdu(e).hex())
+        for _ in range(a // k + 2):
+            lines += ["tick %d" % (k + 1), "rxs c0"]
+        lines.append("tick 2")
+        for e in range(a + 1, b + 1):
+            lines.append("enq " + c07.ev_asdu(e).hex())
+        lines.append("tick %d" % (b - a + 1))
+        if how.startswith("stopdt"):
+            lines += ["rx c0 " + apci.STOPDT_ACT.hex(), "tick"]
+        if how.endswith("peerclose"):
+            lines += ["peerclose c0", "tick 2"]
+        elif how.endswith("appclose"):
+            lines += ["appclose c0", "tick 2"]
+        else:
+            lines += ["wmode c0 1", "enq " + c07.ev_asdu(b + 1).hex(), "tick 3", "peerclose c0", "tick 2"]
+            b += 1
+        lines += ["connect c1 10.0.0.1:1001", "tick", "rx c1 " + apci.STARTDT_ACT.hex(), "tick %d" % (k + 1)]
+        for _ in range((b - a) // k + 2):
+            lines += ["rxs c1", "tick %d" % (k + 1)]
+        sid = "r%d" % i
+        scripts.append((sid, lines)); meta[sid] = (k, a, b, how)
+    rc = runner.run_batch(h, scripts, timeout=3600)
+    for sid, lines in scripts:
+        k, a, b, how = meta[sid]
+        ck.evaluations += 1
+        o = rc.get(sid, dict(out=[], crash=None))
+        if o["crash"]:
+            ck.fail("input", "crash:%s:%s" % (o["crash"]["kind"], o["crash"]["site"]), "server aborted: %s at %s" % (o["crash"]["kind"], o["crash"]["site"]), {"script": lines, "stderr": o["crash"]["text"]})
+            continue
+        per = {"c0": [], "c1": []}
+        for l in o["out"]:
+            w = l.split()
+            if w[0] == "tx" and w[1] in per:
+                for f in apci.split_stream(bytes.fromhex(w[2]))[0]:
+                    x = apci.parse_apdu(f)
+                    if x["kind"] == "I" and x["asdu"][0] == 30:
+                        per[w[1]].append(x["asdu"][6] | x["asdu"][7] << 8)
+        acked0 = [e for e in per["c0"] if e <= a]
+        bad = None
+        if acked0 != list(range(1, a + 1)):
+            continue     # the preparation did not go as planned (e.g. k window): not evaluated
+        want = list(range(a + 1, b + 1))
+        if per["c1"][:1] != want[:1]:
+            bad = "after the reconnection (previous connection ended by %s) the first event transmitted is %s, the oldest unacknowledged one is %d" % (how, per["c1"][:1], a + 1)
+        elif per["c1"] != want:
+            bad = "after the reconnection (previous connection ended by %s) events %s were transmitted, unacknowledged were %s" % (how, per["c1"], want)
+        if bad:
+            ck.fail("input", "oracle:resume:server", "server scheduling: " + bad, {"script": lines, "observed": [l[:90] for l in o["out"] if l.startswith(("tx c1", "ev "))][:8]})
+        ck.nontriv(("resume", k, a, b, how))
+    ck.count("resume_scripts", len(scripts))
+
+
 def run(ck):
     quick = ck.tier == "quick"
     rng = core.Rng(ck.seed)
@@ -210,6 +274,7 @@ def run(ck):
         ck.fail("correspondence", "model-build", "extracted model does not build: " + str(e)[:300], {"theorem": "extraction"})
     run_unit(ck, h, m, rng, quick)
     run_trace(ck, rng, quick)
+    run_resume(ck, rng, quick)
     ck.extra["exhaustive"] = False
 
 
